@@ -61,7 +61,11 @@ type zzNode struct {
 	gov    *ctrlertypes.GovParams
 	nvals  int
 	lastSig []byte // signature produced by the latest encode
+	outs    []*zzBlockOut // outputs of the menu blocks run so far (C07)
+	genPowers []int64     // genesis validator powers
 }
+
+func (n *zzNode) genesisPower(i int) int64 { return n.genPowers[i] }
 
 func zzOpenApp(dir string) *RigoApp {
 	conf := cfg.DefaultConfig()
@@ -121,7 +125,7 @@ func (g *zzGenesis) start() *zzNode {
 
 // startOn runs InitChain on an application that has already answered Info.
 func (g *zzGenesis) startOn(app *RigoApp, dir string) *zzNode {
-	n := &zzNode{dir: dir, gov: g.gov, nvals: len(g.powers), app: app}
+	n := &zzNode{dir: dir, gov: g.gov, nvals: len(g.powers), app: app, genPowers: g.powers}
 	var holders []*genesis.GenesisAssetHolder
 	for i, b := range g.balances {
 		holders = append(holders, &genesis.GenesisAssetHolder{Address: zzAddr(i), Balance: b.Clone()})
